@@ -28,6 +28,8 @@ N(id) == [k |-> "named", id |-> id]
 P(t) == [k |-> "ptr", e |-> t]
 S(t) == [k |-> "slice", e |-> t]
 M(kt, t) == [k |-> "map", key |-> kt, e |-> t]
+\* a named type whose underlying type is not a struct (type NI int, type LP []*int)
+NN(id, u) == [k |-> "nn", id |-> id, u |-> u]
 INT == B("int")
 STR == B("string")
 
@@ -36,14 +38,18 @@ FieldKinds(self) == {"i2i", "i2s", "ptrA", "ptrB", "slcA", "slcB"} \cup (IF self
 \* ... and *B -> B2, *int -> string through E (SourcePointer, needs useZeroValueOnPointerInconsistency: the harness sets it for these programs)
 \* ... and a target field int matched with a source *method* F() int / F() (int, error) (fallible iff extErr)
 MoreKinds == {"s2s", "mapB", "mapK", "mapV", "p2vB", "p2s", "mth"}
+\* third program set (useUnderlyingTypeMethods): NI (named int) -> string through E on the underlying type; LP (named []*int) -> []int
+\* through the declared method ConvL(source []*int) []int, the only method with useZeroValueOnPointerInconsistency
+UnderKinds == {"nI2s", "nL"}
 SrcT(fk) == CASE fk \in {"i2i", "i2s"} -> INT
               [] fk = "s2s" -> STR [] fk = "p2s" -> P(INT) [] fk = "mth" -> [k |-> "meth", b |-> "int"]
+              [] fk = "nI2s" -> NN("NI", INT) [] fk = "nL" -> NN("LP", S(P(INT)))
               [] fk = "mapB" -> M(STR, N("B")) [] fk = "mapK" -> M(INT, INT) [] fk = "mapV" -> M(STR, INT)
               [] fk = "ptrA" -> P(N("A")) [] fk \in {"ptrB", "p2vB"} -> P(N("B"))
               [] fk = "slcA" -> S(N("A")) [] fk = "slcB" -> S(N("B"))
               [] fk = "valB" -> N("B")
 TgtT(fk) == CASE fk \in {"i2i", "mth"} -> INT [] fk = "i2s" -> STR
-              [] fk \in {"s2s", "p2s"} -> STR
+              [] fk \in {"s2s", "p2s", "nI2s"} -> STR [] fk = "nL" -> S(INT)
               [] fk = "mapB" -> M(STR, N("B2")) [] fk = "mapK" -> M(STR, INT) [] fk = "mapV" -> M(STR, STR)
               [] fk = "ptrA" -> P(N("A2")) [] fk = "ptrB" -> P(N("B2"))
               [] fk = "slcA" -> S(N("A2")) [] fk = "slcB" -> S(N("B2"))
@@ -65,13 +71,20 @@ HasExt(prog, s, t) == ExtFn(prog, s, t) # ""
 NoBody == [k |-> "none"]
 NewMethod(s, t, explicit, retErr, ctx, origin, avail) ==
   [src |-> s, tgt |-> t, explicit |-> explicit, retErr |-> retErr, ctx |-> ctx, dirty |-> explicit, origin |-> origin,
-   body |-> NoBody, callers |-> {}, avail |-> avail]
+   body |-> NoBody, callers |-> {}, avail |-> avail, zero |-> FALSE]
+\* useZeroValueOnPointerInconsistency in effect for a method: the converter's value for the root, ConvB and generated methods
+WithZero(rec, z) == [rec EXCEPT !.zero = z]
+ZeroConv(prog) == \E id \in {"A", "B"} : \E i \in DOMAIN prog.shape[id] : prog.shape[id][i] \in {"p2vB", "p2s"}
+
 
 \* Index.Get: the first registered entry whose context set is available; entries exist but none fits => error
 Hits(ms, s, t) == {i \in DOMAIN ms : ms[i].src = s /\ ms[i].tgt = t}
 Lookup(ms, s, t, avail) ==
   LET hits == Hits(ms, s, t) ok == {i \in hits : ms[i].ctx => avail} IN
   IF hits = {} THEN 0 ELSE IF ok = {} THEN -1 ELSE CHOOSE i \in ok : \A j \in ok : i <= j
+
+\* hasMethod: an extend function or a registered method for exactly this pair, whatever its contexts
+HasM(prog, ms, s, t) == HasExt(prog, s, t) \/ Hits(ms, s, t) # {}
 
 \* signatureChanged (Fixed): the method and every recorded caller must be rebuilt
 Touch(st, p) == IF Fixed THEN [st EXCEPT !.ms = [i \in DOMAIN st.ms |-> IF i = p \/ i \in st.ms[p].callers THEN [st.ms[i] EXCEPT !.dirty = TRUE] ELSE st.ms[i]]]
@@ -121,23 +134,30 @@ Conv(prog, st, m, seen, s, t, av, top) ==
     IF hit = -1 THEN Fail(st, "context-unavailable")
     ELSE IF hit # 0 THEN CallM(st, m, seen, hit, av.inScope)
     ELSE
-      LET seenHit == s.k = "named" /\ s.id \in seen
+      LET seenHit == s.k \in {"named", "nn"} /\ s.id \in seen
           curPtrStruct == IsStructT(s) /\ IsStructT(t) /\ (st.ms[m].src = P(s) \/ st.ms[m].tgt = P(t))
           create == IF seenHit THEN TRUE
-                    ELSE IF ~curPtrStruct THEN (s.k = "named" \/ t.k = "named" \/ (s.k = "ptr" /\ s.e.k = "named"))
+                    ELSE IF ~curPtrStruct THEN (s.k = "named" \/ t.k = "named" \/ (s.k = "ptr" /\ s.e.k = "named") \/ (s.k = "nn" /\ s.u.k # "basic"))
                     ELSE FALSE
           st1 == IF seenHit THEN [st EXCEPT !.ms[m].dirty = TRUE] ELSE st
-          seen1 == IF s.k = "named" THEN seen \cup {s.id} ELSE seen
+          seen1 == IF s.k \in {"named", "nn"} THEN seen \cup {s.id} ELSE seen
       IN IF create THEN
            LET j == Len(st1.ms) + 1
-               st2 == [st1 EXCEPT !.ms = Append(@, NewMethod(s, t, FALSE, FALSE, FALSE, <<m>> \o st1.ms[m].origin, av.avail))]
+               st2 == [st1 EXCEPT !.ms = Append(@, WithZero(NewMethod(s, t, FALSE, FALSE, FALSE, <<m>> \o st1.ms[m].origin, av.avail), ZeroConv(prog)))]
                st3 == BuildTop(prog, st2, j, av.avail)
            IN IF st3.fail # "" THEN [st |-> st3, seen |-> seen1, ir |-> NoBody] ELSE CallM(st3, m, seen1, j, av.inScope)
          ELSE Rule(prog, st1, m, seen1, s, t, av, FALSE)
 
 Rule(prog, st, m, seen, s, t, av, top) ==
-  IF s.k = "ptr" /\ t.k = "ptr" THEN
+  IF s.k = "nn" THEN
+     \* UseUnderlyingTypeMethods comes first in the chain: with the setting, and a function or method for (underlying, target),
+     \* the source is cast and that conversion is built; otherwise the rules apply to the named type as to its underlying type
+     (IF prog.under /\ HasM(prog, st.ms, s.u, t)
+      THEN LET r == Conv(prog, st, m, seen, s.u, t, av, FALSE) IN [r EXCEPT !.ir = [k |-> "cast", x |-> r.ir]]
+      ELSE Rule(prog, st, m, seen, s.u, t, av, top))
+  ELSE IF s.k = "ptr" /\ t.k = "ptr" THEN
      LET r == Conv(prog, st, m, seen, s.e, t.e, av, FALSE) IN [r EXCEPT !.ir = [k |-> "ptrptr", x |-> r.ir]]
+  ELSE IF s.k = "ptr" /\ t.k # "ptr" /\ ~st.ms[m].zero THEN Fail(st, "pointer-inconsistency")
   ELSE IF s.k = "ptr" /\ t.k # "ptr" THEN                                  \* SourcePointer: nil gives the zero value of the target
      LET r == Conv(prog, st, m, seen, s.e, t, av, FALSE) IN [r EXCEPT !.ir = [k |-> "srcptr", x |-> r.ir, t |-> t]]
   ELSE IF s.k # "ptr" /\ t.k = "ptr" THEN
@@ -189,23 +209,24 @@ Generate(prog, st, fuel) ==
 \* declB: a second declared method ConvB(source B) B2 ("plain") or ConvB(source B, ctx Ctx) B2 ("ctx") -- it must be used
 \* wherever B -> B2 occurs, and generation must fail where its context is not available
 DeclB(prog) == prog.declB
-Init0(prog) == [fail |-> "", ms |-> <<NewMethod(RootSrc, RootTgt, TRUE, prog.rootErr, prog.rootCtx, <<>>, prog.rootCtx)>>
+Init0(prog) == [fail |-> "", ms |-> <<WithZero(NewMethod(RootSrc, RootTgt, TRUE, prog.rootErr, prog.rootCtx, <<>>, prog.rootCtx), ZeroConv(prog))>>
                                       \o (IF DeclB(prog) = "none" THEN <<>>
-                                          ELSE <<NewMethod(N("B"), N("B2"), TRUE, prog.rootErr, DeclB(prog) = "ctx", <<>>, DeclB(prog) = "ctx")>>)]
+                                          ELSE <<WithZero(NewMethod(N("B"), N("B2"), TRUE, prog.rootErr, DeclB(prog) = "ctx", <<>>, DeclB(prog) = "ctx"), ZeroConv(prog))>>)
+                                      \o (IF prog.declL THEN <<WithZero(NewMethod(S(P(INT)), S(INT), TRUE, prog.rootErr, FALSE, <<>>, FALSE), TRUE)>> ELSE <<>>)]
 Gen(prog) == Generate(prog, Init0(prog), 12)
 
 \* ---------------------------------------------------------------- invariants on the result (WellFormed, C01)
 RECURSIVE Calls(_), HasFallibleExt(_), Exts(_)
 Calls(ir) ==
   CASE ir.k = "call" -> {ir}
-    [] ir.k \in {"ptrptr", "valptr", "srcptr", "slice"} -> Calls(ir.x)
+    [] ir.k \in {"ptrptr", "valptr", "srcptr", "slice", "cast"} -> Calls(ir.x)
     [] ir.k = "map" -> Calls(ir.kx) \cup Calls(ir.vx)
     [] ir.k = "struct" -> UNION {Calls(ir.fs[i].x) : i \in DOMAIN ir.fs}
     [] OTHER -> {}
 Exts(ir) ==
   CASE ir.k = "ext" -> {ir}
     [] ir.k = "mth" -> {[k |-> "ext", fn |-> "M", retErr |-> ir.retErr, passCtx |-> FALSE, needCtx |-> FALSE]}
-    [] ir.k \in {"ptrptr", "valptr", "srcptr", "slice"} -> Exts(ir.x)
+    [] ir.k \in {"ptrptr", "valptr", "srcptr", "slice", "cast"} -> Exts(ir.x)
     [] ir.k = "map" -> Exts(ir.kx) \cup Exts(ir.vx)
     [] ir.k = "struct" -> UNION {Exts(ir.fs[i].x) : i \in DOMAIN ir.fs}
     [] OTHER -> {}
@@ -228,19 +249,23 @@ Outcome(g) == IF ~g.converged THEN "diverges" ELSE IF g.st.fail # "" THEN "fail"
 DirNames == {"p", "source", "target", "context", "c", "fmt"}
 AliasShadowed(prog, dir) == dir \in {"source", "c"} \/ (dir = "context" /\ prog.rootCtx)
 
-Progs == { [shape |-> [A |-> a, B |-> b], rootErr |-> re, extErr |-> xe, rootCtx |-> rc, extCtx |-> xc, extId |-> FALSE, wrap |-> "none", declB |-> "none"] :
+Progs == { [shape |-> [A |-> a, B |-> b], rootErr |-> re, extErr |-> xe, rootCtx |-> rc, extCtx |-> xc, extId |-> FALSE, wrap |-> "none", declB |-> "none", under |-> FALSE, declL |-> FALSE] :
              a \in Shapes("A"), b \in Shapes("B"), re \in BOOLEAN, xe \in BOOLEAN, rc \in BOOLEAN, xc \in BOOLEAN }
 \* second program set: maps, string -> string, the identity-pair extend function, wrapErrorsUsing
 AllKindsA == FieldKinds("A") \cup MoreKinds
 ShapesMore == {<<a>> : a \in AllKindsA} \cup {<<a, b>> : a \in AllKindsA, b \in AllKindsA}
-ProgsMore == { [shape |-> [A |-> a, B |-> b], rootErr |-> eb[1], extErr |-> eb[2], rootCtx |-> FALSE, extCtx |-> FALSE, extId |-> xi, wrap |-> w, declB |-> "none"] :
+ProgsMore == { [shape |-> [A |-> a, B |-> b], rootErr |-> eb[1], extErr |-> eb[2], rootCtx |-> FALSE, extCtx |-> FALSE, extId |-> xi, wrap |-> w, declB |-> "none", under |-> FALSE, declL |-> FALSE] :
                  a \in {x \in ShapesMore : \E i \in DOMAIN x : x[i] \in MoreKinds}, b \in {<<"i2i">>, <<"i2s">>, <<"i2s", "ptrB">>, <<"s2s", "i2s">>, <<"p2s", "i2i">>, <<"mth", "i2i">>},
                  eb \in {<<TRUE, TRUE>>, <<FALSE, FALSE>>, <<TRUE, FALSE>>}, xi \in BOOLEAN, w \in {"none", "using"} }
 \* programs in which B is reachable from A (otherwise B's shape is irrelevant): one representative shape for B
 Reaches(a) == \E i \in DOMAIN a : a[i] \in {"ptrB", "slcB", "valB"}
 Reaches2(a) == \E i \in DOMAIN a : a[i] \in {"ptrB", "slcB", "valB", "mapB", "p2vB"}
 \* third program set: a second declared method for B -> B2, with and without a context parameter
-ProgsDecl == { [shape |-> [A |-> a, B |-> b], rootErr |-> FALSE, extErr |-> FALSE, rootCtx |-> rc, extCtx |-> FALSE, extId |-> FALSE, wrap |-> "none", declB |-> db] :
+ProgsDecl == { [shape |-> [A |-> a, B |-> b], rootErr |-> FALSE, extErr |-> FALSE, rootCtx |-> rc, extCtx |-> FALSE, extId |-> FALSE, wrap |-> "none", declB |-> db, under |-> FALSE, declL |-> FALSE] :
                  a \in {x \in ShapesMore : Reaches2(x)}, b \in {<<"i2i">>, <<"i2i", "ptrB">>}, rc \in BOOLEAN, db \in {"plain", "ctx"} }
-ProgsR == ProgsDecl \cup {p \in Progs : Reaches(p.shape.A) \/ p.shape.B = <<"i2i">>} \cup {p \in ProgsMore : Reaches2(p.shape.A) \/ p.shape.B = <<"i2i">>}
+ShapesUnder == {<<a>> : a \in UnderKinds} \cup {<<a, b>> : a \in UnderKinds, b \in UnderKinds \cup {"i2i", "i2s", "slcA"}} \cup {<<b, a>> : a \in UnderKinds, b \in {"i2s", "ptrA"}}
+ProgsUnder == { [shape |-> [A |-> a, B |-> <<"i2i">>], rootErr |-> eb[1], extErr |-> eb[2], rootCtx |-> FALSE, extCtx |-> FALSE, extId |-> FALSE, wrap |-> w,
+                 declB |-> "none", under |-> u, declL |-> dl] :
+                 a \in ShapesUnder, eb \in {<<TRUE, TRUE>>, <<FALSE, FALSE>>, <<TRUE, FALSE>>}, w \in {"none", "using"}, u \in BOOLEAN, dl \in BOOLEAN }
+ProgsR == ProgsUnder \cup ProgsDecl \cup {p \in Progs : Reaches(p.shape.A) \/ p.shape.B = <<"i2i">>} \cup {p \in ProgsMore : Reaches2(p.shape.A) \/ p.shape.B = <<"i2i">>}
 =============================================================================
